@@ -124,6 +124,9 @@ Proof.
   set (q := (n + P - 1) / P) in *. split; [nia|]. destruct (N.eq_dec q 0); [left; lia|right; nia].
 Qed.
 
+Lemma hi_lt_nb_val v : v < n -> v / 2 ^ w < nb.
+Proof. intros Hv. apply div_lt_iff; [apply P_pos|]. pose proof nb_spec. lia. Qed.
+
 Lemma hi_lt_nb i : i < m -> V i / 2 ^ w < nb.
 Proof.
   intros Hi. apply div_lt_iff; [apply P_pos|]. pose proof (Hbound i Hi). pose proof nb_spec. lia.
@@ -909,5 +912,119 @@ Proof.
         eexists. split; [reflexivity|]. apply q_it_at; [lia|]. intros _. split; [|lia].
         destruct (N.eq_dec (R - 1) 0) as [->|Hne]; [left; reflexivity|right]. apply q_op_mono; lia.
 Qed.
+
+(* ---- select_zero (sets only: the values are strictly increasing) *)
+
+Lemma threshold_ok : 2 <= sparse_BINARY_SEARCH_THRESHOLD.
+Proof. unfold sparse_BINARY_SEARCH_THRESHOLD. lia. Qed.
+
+Section Zero.
+Hypothesis Hstrict : sorted_lt Vs.
+Variable rank : N.
+
+(* all values before index j are followed by at most [rank] unset positions *)
+Definition run_prefix (j : N) : Prop := forall j', j' < j -> V j' <= rank + j'.
+
+Lemma q_run_prefix_ext j : j < m -> V j <= rank + j -> run_prefix (j + 1).
+Proof.
+  intros Hj Hv j' Hj'. pose proof (sorted_lt_gap Vs j' j Hstrict ltac:(lia) Hj). lia.
+Qed.
+
+Lemma q_index_le_V j : j < m -> j <= V j.
+Proof. apply sorted_lt_ge_index. exact Hstrict. Qed.
+
+Lemma q_fzr_search f : forall low high it,
+  low <= high -> high <= m -> high - low <= sparse_BINARY_SEARCH_THRESHOLD * 2 ^ N.of_nat f ->
+  it_repr it low m -> run_prefix low ->
+  exists low' it', fzr_search sp md sv (S f) rank low high (low, it) = Ok (low', it') /\
+    low' <= m /\ it_repr it' low' m /\ run_prefix low'.
+Proof.
+  pose proof threshold_ok as HT.
+  induction f as [|f IH]; intros low high it Hlh Hhm Hd Hit Hpre.
+  - cbn [fzr_search]. rewrite usub_ok by lia. cbn [bind].
+    replace (sparse_BINARY_SEARCH_THRESHOLD <? high - low) with false by (cbn in Hd; lia).
+    exists low, it. split; [reflexivity|]. split; [lia|split; [exact Hit|exact Hpre]].
+  - cbn [fzr_search]. rewrite usub_ok by lia. cbn [bind].
+    destruct (N.ltb_spec sparse_BINARY_SEARCH_THRESHOLD (high - low)) as [Hgt|Hle].
+    + set (d := high - low) in *. set (mid := low + d / 2).
+      assert (Hmid : low <= mid /\ mid < high) by (unfold mid; lia).
+      destruct (q_select_iter mid) as [itm [Hsel Hitm]]. rewrite Hsel. cbn [bind].
+      replace (N.min mid m) with mid in Hitm by lia.
+      destruct (q_it_next itm mid m Hitm ltac:(lia)) as [it' [Hnx Hit']]. rewrite Hnx. cbn [bind opt_unwrap].
+      pose proof (q_index_le_V mid ltac:(lia)) as Hge. pose proof q_hb_len as [_ Hl2].
+      rewrite usub_ok by exact Hge. cbn [bind].
+      assert (Hpow : 2 ^ N.of_nat (S f) = 2 * 2 ^ N.of_nat f) by (rewrite Nat2N.inj_succ, N.pow_succ_r'; reflexivity).
+      destruct (N.leb_spec (V mid - mid) rank) as [Hgo|Hgo].
+      * rewrite uadd_ok by lia. cbn [bind].
+        apply IH; [lia|lia| |exact Hit'|apply q_run_prefix_ext; lia].
+        rewrite Hpow in Hd. unfold mid. fold d. nia.
+      * apply IH; [lia|lia| |exact Hit|exact Hpre].
+        rewrite Hpow in Hd. unfold mid. replace (low + d / 2 - low) with (d / 2) by lia. nia.
+    + exists low, it. split; [reflexivity|]. split; [lia|split; [exact Hit|exact Hpre]].
+Qed.
+
+Lemma q_fzr_scan low it : low <= m -> it_repr it low m -> run_prefix low ->
+  exists K itK, run_loop (sv_fuel sv) (fzr_scan_step md sv rank) (it, (low, it)) = Ok (K, itK) /\
+    K <= m /\ it_repr itK K m /\ run_prefix K /\ (K < m -> rank + K < V K).
+Proof.
+  intros Hlowm Hit Hpre.
+  destruct (run_loop_inv (fzr_scan_step md sv rank)
+              (fun s k => exists j itj, s = (itj, (j, itj)) /\ j <= m /\ it_repr itj j m /\ run_prefix j /\ k = m - j)
+              (fun r => exists K itK, r = (K, itK) /\ K <= m /\ it_repr itK K m /\ run_prefix K /\ (K < m -> rank + K < V K)))
+           with (blocks := sv_fuel sv) (s := (it, (low, it))) (k := m - low) as [r [Hr Hp]].
+  - intros s k [j [itj [-> [Hjm [Hitj [Hprej Hk]]]]]]. unfold fzr_scan_step. cbn [fst snd].
+    destruct (N.ltb_spec j m) as [Hlt|Hge].
+    + destruct (q_it_next itj j m Hitj Hlt) as [it' [Hnx Hit']]. rewrite Hnx. cbn [bind].
+      pose proof (q_index_le_V j Hlt) as Hge. rewrite usub_ok by exact Hge. cbn [bind].
+      pose proof q_hb_len as [_ Hl2].
+      destruct (N.leb_spec (V j - j) rank) as [Hgo|Hgo].
+      * rewrite uadd_ok by lia. cbn [bind]. right. eexists. exists (m - (j + 1)). split; [reflexivity|]. split; [|lia].
+        exists (j + 1), it'. split; [reflexivity|]. split; [lia|]. split; [exact Hit'|]. split; [apply q_run_prefix_ext; lia|reflexivity].
+      * left. eexists. split; [reflexivity|]. exists j, itj. split; [reflexivity|]. split; [exact Hjm|]. split; [exact Hitj|]. split; [exact Hprej|]. intros _. lia.
+    + rewrite (q_it_next_none itj j m Hitj Hge). cbn [bind]. left. eexists. split; [reflexivity|].
+      exists j, itj. split; [reflexivity|]. split; [exact Hjm|]. split; [exact Hitj|]. split; [exact Hprej|]. intros Hc. lia.
+  - exists low, it. split; [reflexivity|]. split; [exact Hlowm|]. split; [exact Hit|]. split; [exact Hpre|reflexivity].
+  - pose proof q_fuel. lia.
+  - destruct Hp as [K [itK [-> Hrest]]]. exists K, itK. split; [exact Hr|exact Hrest].
+Qed.
+
+Lemma q_find_zero_run : exists K itK, sv_find_zero_run sp md sv rank = Ok (K, itK) /\
+    K <= m /\ it_repr itK K m /\ run_prefix K /\ (K < m -> rank + K < V K).
+Proof.
+  unfold sv_find_zero_run. rewrite q_ones. pose proof q_hb_len as [_ Hl2]. pose proof threshold_ok as HT.
+  destruct (q_fzr_search 63 0 m (sv_one_iter sv)) as [low [it [Hs [Hlm [Hit Hpre]]]]];
+    [lia|lia| |apply q_one_iter|intros j' Hj'; lia|].
+  { replace (m - 0) with m by lia. assert (2 ^ 64 <= sparse_BINARY_SEARCH_THRESHOLD * 2 ^ N.of_nat 63) by (change (N.of_nat 63) with 63; lia). lia. }
+  change (S 63) with 64%nat in Hs. rewrite Hs. cbn [bind snd].
+  apply q_fzr_scan; assumption.
+Qed.
+
+Lemma q_m_le_n : m <= n.
+Proof. apply sorted_lt_len_le; assumption. Qed.
+
+Lemma q_count_zeros : sv_count_zeros sv = n - m.
+Proof. unfold sv_count_zeros. rewrite Hlen, q_ones. pose proof q_m_le_n. destruct (N.leb_spec n m); lia. Qed.
+
+Lemma q_select_zero_ok :
+  (n - m <= rank -> sv_select_zero sp md sv rank = Ok None) /\
+  (rank < n - m -> exists z, sv_select_zero sp md sv rank = Ok (Some z) /\
+     z < n /\ vs_get Vs z = false /\ vs_rank Vs z + rank = z).
+Proof.
+  unfold sv_select_zero. rewrite q_count_zeros. split; intros Hr.
+  - replace (n - m <=? rank) with true by lia. reflexivity.
+  - replace (n - m <=? rank) with false by lia.
+    destruct q_find_zero_run as [K [itK [Hf [HKm [_ [Hpre Hnext]]]]]]. rewrite Hf. cbn [bind].
+    pose proof q_m_le_n as Hmn. rewrite uadd_ok by lia. cbn [bind]. exists (K + rank). split; [reflexivity|].
+    assert (HR : vs_rank Vs (K + rank) = K).
+    { apply vs_rank_char; [exact Hsorted|exact HKm| |].
+      - intros i Hi. pose proof (Hpre i Hi). lia.
+      - intros i Hi1 Hi2. specialize (Hnext ltac:(lia)).
+        pose proof (sorted_lt_gap Vs K i Hstrict Hi1 Hi2). lia. }
+    split; [lia|]. split; [|lia].
+    rewrite (vs_get_sorted Vs _ Hsorted), HR. destruct (N.ltb_spec K m) as [HKlt|]; [|reflexivity].
+    specialize (Hnext HKlt). apply N.eqb_neq. lia.
+Qed.
+
+End Zero.
 
 End Queries.
